@@ -24,8 +24,8 @@ Parameter object assigned to a class attribute takes the `add_parameter` path (3
 
 NOT covered by the theorems, stated here so that nobody reads more into them:
   * the hierarchy is fixed at the start of a history (no class-creation operation);
-  * `repr` and watcher registration are not modelled as separate consumers (they read the same
-    `objects('existing')` / `cls.param` dictionary as `values()`); the inherited `name` parameter,
+  * `repr` is not modelled as a separate consumer (it reads the same `objects('existing')` dictionary as
+    `values()`); watcher registration is (`watchCls`/`watchInst`); the inherited `name` parameter,
     `delattr`, `per_instance=False` and edits of a per-instance copy's `default` are outside the model.
 -/
 import ParamVerif.Store.NamespaceLemmas
@@ -216,6 +216,15 @@ theorem step_preserves_inv (s : St) (op : Op) (h : Inv s) : Inv (step s op).1 :=
     · simp only [Prod.mk.injEq] at hstep; rw [← hstep.1]; exact h
     · rename_i x _
       simp only [Prod.mk.injEq] at hstep; rw [← hstep.1]; exact inv_nsRead h x.cls
+  | watchCls c n =>
+    simp only [step, Prod.mk.injEq] at hstep
+    rw [← hstep.1]; exact inv_nsRead h c
+  | watchInst i n =>
+    simp only [step] at hstep
+    split at hstep
+    · simp only [Prod.mk.injEq] at hstep; rw [← hstep.1]; exact h
+    · rename_i x _
+      simp only [Prod.mk.injEq] at hstep; rw [← hstep.1]; exact inv_nsRead h x.cls
   | clsSetParam c n d hi =>
     simp only [step] at hstep
     have := addParamCore_inv s c n d hi h
@@ -399,6 +408,19 @@ theorem step_preserves_instOk (s : St) (op : Op) (h : Inv s) (hi : InstOk s) :
       simp only [Prod.mk.injEq] at hstep; rw [← hstep.1]
       obtain ⟨e1, e2, e3, _⟩ := nsRead_shape s x.cls
       exact instOk_of e3 e1 (fun k n hk => by rw [e2]; exact hk) hi
+  | watchCls c n =>
+    simp only [step, Prod.mk.injEq] at hstep
+    rw [← hstep.1]
+    obtain ⟨e1, e2, e3, _⟩ := nsRead_shape s c
+    exact instOk_of e3 e1 (fun k n hk => by rw [e2]; exact hk) hi
+  | watchInst i n =>
+    simp only [step] at hstep
+    split at hstep
+    · simp only [Prod.mk.injEq] at hstep; rw [← hstep.1]; exact hi
+    · rename_i x _
+      simp only [Prod.mk.injEq] at hstep; rw [← hstep.1]
+      obtain ⟨e1, e2, e3, _⟩ := nsRead_shape s x.cls
+      exact instOk_of e3 e1 (fun k n hk => by rw [e2]; exact hk) hi
   | clsSetParam c n d hi' =>
     simp only [step] at hstep
     have := addParamCore_instOk s c n d hi' hi
@@ -420,6 +442,29 @@ instance assignments and `obj.param[n]` accesses, the `.param` namespace of ever
 instance agrees with attribute access — for `Dynamic` Parameter types too. -/
 theorem namespace_agrees (s : St) (ops : List Op) (h : Inv s) (hi : InstOk s) : Agrees (run s ops) :=
   agrees_of_inv _ (run_preserves_inv ops s h hi).1 (run_preserves_inv ops s h hi).2
+
+/-- **C13 (watching).**  Registering a watcher succeeds exactly for the names that are reachable as
+Parameter attributes: `_register_watcher` tests membership in the (cached) namespace. -/
+theorem watch_succeeds_iff_reachable (s : St) (h : Inv s) (c : CId) (n : Name) :
+    (step s (.watchCls c n)).2 = .ok ↔ (staticAttr s c n).isSome = true := by
+  have gi : aget (nsRead s c).2 n = staticAttr s c n := by
+    have := nsView_eq h c
+    unfold nsView at this
+    rw [this, computeParams_get h]; rfl
+  simp only [step]
+  rw [gi]
+  cases staticAttr s c n <;> simp
+
+theorem watch_instance_succeeds_iff_reachable (s : St) (h : Inv s) (i : IId) (x : Inst) (n : Name)
+    (hx : s.insts[i]? = some x) :
+    (step s (.watchInst i n)).2 = .ok ↔ (staticAttr s x.cls n).isSome = true := by
+  have gi : aget (nsRead s x.cls).2 n = staticAttr s x.cls n := by
+    have := nsView_eq h x.cls
+    unfold nsView at this
+    rw [this, computeParams_get h]; rfl
+  simp only [step, hx]
+  rw [gi]
+  cases staticAttr s x.cls n <;> simp
 
 /-- freshly created classes (no cache computed yet, `__dict__`s are dicts) satisfy the invariant -/
 theorem fresh_inv (s : St) (hd : ∀ (c : CId) (k : Cls), s.classes[c]? = some k → (akeys k.dict).Nodup)
